@@ -1,14 +1,11 @@
 (* C19/ProofsNested.v — nested-action lists: explainNested / readNestedLookups *)
 From Coq Require Import List NArith ZArith Bool Arith Lia ZifyBool ZifyNat ZifyN.
 From Gen Require Import C19.
-From C19 Require Import Model Wf Util ProofsLex Render ProofsTotal.
+From C19 Require Import Model Wf Util ProofsLex Render.
 Import ListNotations.
 Local Open Scope N_scope.
 
 Arguments digits : simpl never.
-
-Definition nested_toks (acts : list (N * N)) (l : N) : list token :=
-  concat (map (fun a => [tk TInt (digits (fst a)) l; tk TAt [64] l; tk TInt (digits (snd a)) l]) acts).
 
 Section Nested.
   Variable U : uclass.
